@@ -84,6 +84,60 @@ theorem grpcAssertSteps_eq : Gen.RespGuard.grpcAssertSteps = [
 call with a payload assertion from panicking (`assertGrpc`: `outNil ⇒ err`) -/
 theorem grpcNilGuardBeforeUse_eq : Gen.RespGuard.grpcNilGuardBeforeUse = true := rfl
 
+/-! ### the extractors and the postprocessor loop, statement by statement
+
+Canonical spelling (gen `respguardCanonStmts`): locals are `v<i>` in the order of first occurrence, error texts are
+dropped — renaming a local or rewording a message keeps these lemmas; a changed guard, a dropped error return, another
+loop breaks them. -/
+
+/-- `VarHeaderPostprocessor.Process` is the model's `varHeaderWith`: an unparsable mapping is an error return
+(`mods = none ⇒ err`), an absent / empty header is skipped (`if v = [] then …`), otherwise the modifier chain is applied
+(the only call on response data: `applyChain`, which cannot panic — `C19_no_panic`) -/
+theorem varHeaderProcess_eq : Gen.RespGuard.varHeaderProcess = [
+    "if len(v0.Mapping) == 0 { return nil, nil }",
+    "v1 := make(map[string]any, len(v0.Mapping))",
+    "for v2, v3 := range v0.Mapping { v4, v5, v6 := v0.parseValue(v3) if v6 != nil { return nil, fmt.Errorf(\"…\", v3, v6) } v7 := v8.Header.Get(v4) if v7 == \"\" { continue } v1[v2] = v5(v7) }",
+    "return v1, nil"] := rfl
+
+/-- `VarJsonpathPostprocessor.Process` is the model's `varJsonpath`: no mapping ⇒ ok; a body that does not decode ⇒
+error; a path that does not match ⇒ the error is collected and returned; the result map is created before it is
+written -/
+theorem varJsonpathProcess_eq : Gen.RespGuard.varJsonpathProcess = [
+    "if len(v0.Mapping) == 0 { return nil, nil }",
+    "var v1 any",
+    "v2 := json.NewDecoder(v3)",
+    "v4 := v2.Decode(&v1)",
+    "if v4 != nil { return nil, fmt.Errorf(\"…\", v4) }",
+    "v5 := map[string]any{}",
+    "for v6, v7 := range v0.Mapping { v8, v9 := jsonpath.Get(v7, v1) if v9 != nil { v4 = multierr.Append(v4, fmt.Errorf(\"…\", v7, v9)) continue } v5[v6] = v8 }",
+    "return v5, v4"] := rfl
+
+/-- `VarXpathPostprocessor.Process` / `getValuesFromDOM` are the model's `varXpath`: an expression that does not
+compile ⇒ error (`invalid`), one that does not evaluate to a node set ⇒ error through the comma-ok assertion
+(`scalar`), `values[0]` only under `len(values) == 1` -/
+theorem varXpathProcess_eq : Gen.RespGuard.varXpathProcess = [
+    "if len(v0.Mapping) == 0 { return nil, nil }",
+    "v1, v2 := html.Parse(v3)",
+    "if v2 != nil { return nil, v2 }",
+    "v4 := make(map[string]any, len(v0.Mapping))",
+    "for v5, v6 := range v0.Mapping { v7, v8 := v0.getValuesFromDOM(v1, v6) if v8 != nil { return nil, v8 } if len(v7) == 1 { v4[v5] = v7[0] } else { v4[v5] = v7 } }",
+    "return v4, nil"] := rfl
+
+theorem xpathValuesFromDOM_eq : Gen.RespGuard.xpathValuesFromDOM = [
+    "v0, v1 := xpath.Compile(v2)",
+    "if v1 != nil { return nil, v1 }",
+    "v3, v4 := v0.Evaluate(htmlquery.CreateXPathNavigator(v5)).(*xpath.NodeIterator)",
+    "if !v4 { return nil, fmt.Errorf(\"…\", v2) }",
+    "var v6 []string",
+    "for v3.MoveNext() { v7 := v3.Current() v6 = append(v6, v7.Value()) }",
+    "return v6, nil"] := rfl
+
+/-- the postprocessor loop of `ScenarioGun.shootStep` is the model's `runPPs`: postprocessors run in order, the first
+error ends the step with that error, the variables are copied into a map created by the caller of the loop, the body
+reader is rewound for the next postprocessor -/
+theorem scenarioPostLoop_eq : Gen.RespGuard.scenarioPostLoop = [
+    "for _, v0 := range v1 { v2, v3 = v0.Process(v4, v5) if v3 != nil { return fmt.Errorf(\"…\", op, v3) } for v6, v7 := range v2 { v8[v6] = v7 } _, v3 = v5.Seek(0, io.SeekStart) if v3 != nil { return fmt.Errorf(\"…\", op, v3) } }"] := rfl
+
 /-! ### the http2 client -/
 
 theorem notHTTP2PanicMsg_eq : Gen.RespGuard.notHTTP2PanicMsg = notHTTP2PanicMsg := rfl
